@@ -85,7 +85,7 @@ def run_harness(h, srcs, workdir, incdirs, defines=(), tag="main", timeout=120, 
         res["status"] = "tool-error"
         res["error"] = f"goto-instrument rc={rc}"
         return res
-    cb = ["cbmc", b] + BASE_CHECKS + ["--json-ui", "--trace"]
+    cb = ["cbmc", b] + BASE_CHECKS + ["--json-ui"] + (["--trace"] if tag in ("main", "safety") else [])
     if h.get("unwind"):
         cb += ["--unwind", str(h["unwind"]), "--unwinding-assertions"]
     for k, v in h.get("unwindset", {}).items():
@@ -98,6 +98,8 @@ def run_harness(h, srcs, workdir, incdirs, defines=(), tag="main", timeout=120, 
     elif solver == "kissat":
         cb += ["--external-sat-solver", "kissat"]
     cb += ["--object-bits", str(h.get("object_bits", 12))]
+    if h.get("slice_formula", True):
+        cb += ["--slice-formula"]
     cb += list(h.get("flags", []))
     to = h.get("timeout", timeout)
     rc, out, dt = _run(cb, log, to, mem_gb)
